@@ -207,6 +207,23 @@ Proof.
   intros [f1 H1] Hp [f2 H2]. fuel (max f1 f2). simpl. rewrite H1 by lia. simpl. rewrite Hp. apply H2; lia.
 Qed.
 
+(* a `for` loop with an invariant *)
+Lemma ev_for_inv d i b (Inv : nat -> env -> Prop) : forall n k en,
+  Inv k en ->
+  (forall j en', k <= j < k + n -> Inv j en' ->
+     exists v en2, evals d b ((i, VNat j) :: en') (CVal v, en2) /\ Inv (S j) (leave en' en2)) ->
+  exists enf, evals_for d i k n b en (CVal VUnit, enf) /\ Inv (k + n) enf.
+Proof.
+  induction n as [|n IH]; intros k en HI Hstep.
+  - exists en. split; [apply ev_for_nil|]. rewrite Nat.add_0_r. exact HI.
+  - destruct (Hstep k en ltac:(lia) HI) as (v & en2 & Hb & HI2).
+    destruct (IH (S k) (leave en en2) HI2) as (enf & Hf & HIf).
+    + intros j en' Hj. apply Hstep. lia.
+    + exists enf. split.
+      * eapply ev_for_step; [exact Hb | reflexivity | reflexivity | exact Hf].
+      * replace (k + S n) with (S k + n) by lia. exact HIf.
+Qed.
+
 (* ---- calls of user functions ---- *)
 Lemma calls_intro d g args fd en0 c en' c' :
   is_builtin g = false -> find_fn P g = Some fd -> bind_params fd args = Some en0 ->
